@@ -1574,3 +1574,80 @@ VARIANTS += [
  dict(name='benign-flag-accumulated-with-or', file='verifier/trustpolicy/oci.go', expect='silent',
       find='\tvar wildcardPolicy *OCITrustPolicy\n', replace='\tseenWildcard := false\n\tfor _, st := range policyDoc.TrustPolicies {\n\t\tseenWildcard = seenWildcard || slices.Contains(st.RegistryScopes, trustpolicy.Wildcard)\n\t}\n\t_ = seenWildcard\n\tvar wildcardPolicy *OCITrustPolicy\n'),
 ]
+
+# pass 7 (guards that can be disabled): completeness of the exact selection. A test of the *selection* that got an extra
+# conjunct passes the statement that lists the repository over: the wildcard statement is applied instead (the wrong
+# statement, not a refusal) -> oci/selection-complete. The same weakening of a *rejecting* guard (reference format,
+# precedence) was flagged already: pinned here with realistic conjuncts.
+def _derive(base, name, expect, a, b):
+    src = next(v for v in VARIANTS if v['name'] == base)
+    d = dict(src, name=name, expect=expect)
+    n = 0
+    if 'edits' in src:
+        ed = []
+        for (f, fnd, rep) in src['edits']:
+            n += rep.count(a)
+            ed.append((f, fnd, rep.replace(a, b)))
+        d['edits'] = ed
+    if src.get('replace'):
+        n += src['replace'].count(a)
+        d['replace'] = src['replace'].replace(a, b)
+    assert n == 1, (base, name, n)
+    return d
+
+_EX = '} else if slices.Contains(policyStatement.RegistryScopes, artifactPath) {'
+VARIANTS += [
+ dict(name='exact-test-disabled', file=O, expect='flagged(oci/selection-complete)',
+      find=_EX, replace='} else if false && (slices.Contains(policyStatement.RegistryScopes, artifactPath)) {'),
+ dict(name='exact-test-extra-conjunct-several-scopes', file=O, expect='flagged(oci/selection-complete)',
+      find=_EX, replace='} else if len(policyStatement.RegistryScopes) > 1 && slices.Contains(policyStatement.RegistryScopes, artifactPath) {'),
+ dict(name='exact-test-extra-conjunct-no-wildcard-yet', file=O, expect='flagged(oci/selection-complete)',
+      find=_EX, replace='} else if wildcardPolicy == nil && slices.Contains(policyStatement.RegistryScopes, artifactPath) {'),
+ dict(name='exact-test-extra-conjunct-other-field', file=O, expect='flagged(oci/selection-complete)',
+      find=_EX, replace='} else if len(policyStatement.TrustStores) > 0 && slices.Contains(policyStatement.RegistryScopes, artifactPath) {'),
+ dict(name='exact-test-nested-extra-test', file=O, expect='flagged(oci/selection-complete)',
+      find=_EX + '\n\t\t\tapplicablePolicy = (&policyStatement).clone()\n',
+      replace=_EX + '\n\t\t\tif len(policyStatement.RegistryScopes) > 1 {\n\t\t\t\tapplicablePolicy = (&policyStatement).clone()\n\t\t\t}\n'),
+ dict(name='exact-test-skips-single-scope-statements', file=O, expect='flagged(oci/selection-complete)',
+      find='\t\tif slices.Contains(policyStatement.RegistryScopes, trustpolicy.Wildcard) {\n\t\t\t// we need to deep copy',
+      replace='\t\tif len(policyStatement.RegistryScopes) == 1 && policyStatement.RegistryScopes[0] != trustpolicy.Wildcard {\n\t\t\tcontinue\n\t\t}\n\t\tif slices.Contains(policyStatement.RegistryScopes, trustpolicy.Wildcard) {\n\t\t\t// we need to deep copy'),
+ _derive('benign-scan-helper-enum-classifier', 'classifier-exact-answer-extra-conjunct', 'flagged(oci/selection-complete)',
+         '\tif slices.Contains(registryScopes, artifactPath) {\n\t\treturn scopeMatchExact', '\tif len(registryScopes) > 1 && slices.Contains(registryScopes, artifactPath) {\n\t\treturn scopeMatchExact'),
+ _derive('benign-scan-helper-enum-classifier', 'classifier-exact-case-extra-test', 'flagged(oci/selection-complete)',
+         '\t\tcase scopeMatchExact:\n\t\t\tapplicablePolicy = (&policyStatement).clone()\n', '\t\tcase scopeMatchExact:\n\t\t\tif wildcardPolicy == nil {\n\t\t\t\tapplicablePolicy = (&policyStatement).clone()\n\t\t\t}\n'),
+ _derive('benign-fused-classifier-answer-accumulated', 'fused-classifier-exact-extra-conjunct', 'flagged(oci/selection-complete)',
+         '\t\tif scope == artifactPath {\n\t\t\tmatch = scopeMatchExact', '\t\tif len(t.TrustStores) > 0 && scope == artifactPath {\n\t\t\tmatch = scopeMatchExact'),
+ _derive('benign-index-candidates', 'index-candidates-exact-extra-conjunct', 'flagged(oci/selection-complete)',
+         '\t\tif slices.Contains(registryScopes, artifactPath) {\n\t\t\tapplicableIndex = i', '\t\tif len(registryScopes) > 1 && slices.Contains(registryScopes, artifactPath) {\n\t\t\tapplicableIndex = i'),
+ _derive('benign-index-candidates', 'index-candidates-skip-guard-before-exact-test', 'flagged(oci/selection-complete)',
+         '\t\tif slices.Contains(registryScopes, artifactPath) {\n\t\t\tapplicableIndex = i', '\t\tif wildcardIndex != notFound {\n\t\t\tcontinue\n\t\t}\n\t\tif slices.Contains(registryScopes, artifactPath) {\n\t\t\tapplicableIndex = i'),
+ _derive('benign-flags-inline', 'flags-inline-exact-flag-extra-conjunct', 'flagged(oci/selection-complete)',
+         '\t\t} else if hasPath {', '\t\t} else if len(policyStatement.RegistryScopes) > 1 && hasPath {'),
+ # the same guard spelled differently, and tests that are implied: silent
+ dict(name='benign-exact-test-first-match-wins', file=O, expect='silent',
+      find=_EX, replace='} else if applicablePolicy == nil && slices.Contains(policyStatement.RegistryScopes, artifactPath) {'),
+ dict(name='benign-exact-test-negated-continue', file=O, expect='silent',
+      find='\t\tif slices.Contains(policyStatement.RegistryScopes, trustpolicy.Wildcard) {\n\t\t\t// we need to deep copy because we can\'t use the loop variable\n\t\t\t// address. see https://stackoverflow.com/a/45967429\n\t\t\twildcardPolicy = (&policyStatement).clone()\n\t\t} else if slices.Contains(policyStatement.RegistryScopes, artifactPath) {\n\t\t\tapplicablePolicy = (&policyStatement).clone()\n\t\t}\n',
+      replace='\t\tif slices.Contains(policyStatement.RegistryScopes, trustpolicy.Wildcard) {\n\t\t\twildcardPolicy = (&policyStatement).clone()\n\t\t\tcontinue\n\t\t}\n\t\tif !slices.Contains(policyStatement.RegistryScopes, artifactPath) {\n\t\t\tcontinue\n\t\t}\n\t\tapplicablePolicy = (&policyStatement).clone()\n'),
+ dict(name='benign-exact-test-empty-scopes-shortcut', file=O, expect='silent',
+      find='\t\tif slices.Contains(policyStatement.RegistryScopes, trustpolicy.Wildcard) {\n\t\t\t// we need to deep copy',
+      replace='\t\tif len(policyStatement.RegistryScopes) == 0 {\n\t\t\tcontinue\n\t\t}\n\t\tif slices.Contains(policyStatement.RegistryScopes, trustpolicy.Wildcard) {\n\t\t\t// we need to deep copy'),
+ dict(name='benign-exact-test-nested-not-wildcard', file=O, expect='silent',
+      find='\t\tif slices.Contains(policyStatement.RegistryScopes, trustpolicy.Wildcard) {\n\t\t\t// we need to deep copy because we can\'t use the loop variable\n\t\t\t// address. see https://stackoverflow.com/a/45967429\n\t\t\twildcardPolicy = (&policyStatement).clone()\n\t\t} else if slices.Contains(policyStatement.RegistryScopes, artifactPath) {\n\t\t\tapplicablePolicy = (&policyStatement).clone()\n\t\t}\n',
+      replace='\t\tlisted := slices.Contains(policyStatement.RegistryScopes, artifactPath)\n\t\tif slices.Contains(policyStatement.RegistryScopes, trustpolicy.Wildcard) {\n\t\t\twildcardPolicy = (&policyStatement).clone()\n\t\t}\n\t\tif listed {\n\t\t\tif !slices.Contains(policyStatement.RegistryScopes, trustpolicy.Wildcard) {\n\t\t\t\tapplicablePolicy = (&policyStatement).clone()\n\t\t\t}\n\t\t}\n'),
+ dict(name='benign-exact-test-in-switch-with-helper', file=O, expect='silent',
+      find='\t\tif slices.Contains(policyStatement.RegistryScopes, trustpolicy.Wildcard) {\n\t\t\t// we need to deep copy because we can\'t use the loop variable\n\t\t\t// address. see https://stackoverflow.com/a/45967429\n\t\t\twildcardPolicy = (&policyStatement).clone()\n\t\t} else if slices.Contains(policyStatement.RegistryScopes, artifactPath) {\n\t\t\tapplicablePolicy = (&policyStatement).clone()\n\t\t}\n',
+      replace='\t\tswitch {\n\t\tcase scopeListed(&policyStatement, trustpolicy.Wildcard):\n\t\t\twildcardPolicy = (&policyStatement).clone()\n\t\tcase scopeListed(&policyStatement, artifactPath):\n\t\t\tapplicablePolicy = (&policyStatement).clone()\n\t\t}\n',
+      edits=[(O, '// clone returns a pointer to the deep copied [OCITrustPolicy]', 'func scopeListed(t *OCITrustPolicy, wanted string) bool {\n\tfor i := range t.RegistryScopes {\n\t\tif wanted == t.RegistryScopes[i] {\n\t\t\treturn true\n\t\t}\n\t}\n\treturn false\n}\n\n// clone returns a pointer to the deep copied [OCITrustPolicy]')]),
+ # rejecting guards of the reference / of the precedence with a realistic extra conjunct (fail-open): flagged by the must-pass rules
+ dict(name='separator-guard-extra-conjunct', file=O, expect='flagged(oci/path/separator-found)',
+      find='\tif i < 0 {', replace='\tif len(artifactReference) > 1 && i < 0 {'),
+ dict(name='format-guard-extra-conjunct', file=O, expect='flagged(oci/path/format-validated)',
+      find='\tif err := validateRegistryScopeFormat(artifactPath); err != nil {\n\t\treturn "", err', replace='\tif err := validateRegistryScopeFormat(artifactPath); i > 0 && err != nil {\n\t\treturn "", err'),
+ dict(name='path-error-guard-extra-conjunct', file=O, expect='flagged(oci/path/path-error)',
+      find='\tartifactPath, err := getArtifactPathFromReference(artifactReference)\n\tif err != nil {', replace='\tartifactPath, err := getArtifactPathFromReference(artifactReference)\n\tif artifactPath == "" && err != nil {'),
+ dict(name='precedence-exact-guard-extra-conjunct', file=O, expect='flagged(oci/precedence)',
+      find='\tif applicablePolicy != nil {\n\t\t// a policy', replace='\tif applicablePolicy != nil && wildcardPolicy == nil {\n\t\t// a policy'),
+ dict(name='precedence-wildcard-guard-extra-conjunct', file=O, expect='flagged(oci/precedence)',
+      find='\t} else if wildcardPolicy != nil {', replace='\t} else if len(policyDoc.TrustPolicies) > 1 && wildcardPolicy != nil {'),
+]
